@@ -128,14 +128,14 @@ def main():
     ck.do_build()
     rnd = random.Random(ck.seed + 9)
     quick = ck.tier == "quick"
-    nq = 40 if quick else 400
+    nq = 40 if quick else 160
     items = []
     for fam, params, text in distref.param_grid(rnd, quick):
         ref = distref.reference(fam, params)
         if ref.mean > 1600 and quick:
             continue        # thousands of residues per molecule: thorough tier only
-        if ref.mean > 6000:
-            continue
+        if ref.mean > 3500:
+            continue        # (chains of more than ~150 units: generation is quadratic in the chain length)
         unit, _ = rnd.choice(UNITS)
         unit2, _ = rnd.choice([u for u in UNITS if u[0] != unit])
         two = rnd.random() < 0.4
